@@ -2636,7 +2636,10 @@ _dbus_message_iter_close_signature (DBusMessageRealIter *real)
   str = real->u.writer.type_str;
 
   v_STRING = _dbus_string_get_const_data (str);
-  if (!_dbus_header_set_field_basic (&real->message->header,
+  /* A signature longer than the protocol allows cannot be marshalled:
+   * the append that made it so fails, like one that ran out of memory. */
+  if (_dbus_string_get_length (str) > DBUS_MAXIMUM_SIGNATURE_LENGTH ||
+      !_dbus_header_set_field_basic (&real->message->header,
                                      DBUS_HEADER_FIELD_SIGNATURE,
                                      DBUS_TYPE_SIGNATURE,
                                      &v_STRING))
